@@ -2,6 +2,11 @@
 /repo/w2c2/{leb128.h, section.h, reader.c, reader.h, valuetype.h, table.h, import.h, export.h,
 stringbuilder.c, c.c, c.h, w2c2_base.h}.
 
+Function bodies are brought to the canonical form of tools/extract/readernorm.py first (switch = if/else-if chain,
+`x == 0` = `!x`, `i++` = `i += 1`, for = while, literals by value, operand order of commutative operators, redundant
+parentheses, single-assignment temporaries, …; see there) and local / parameter names are bound by back-references, so a
+behaviour-preserving rewrite of those kinds gives the same facts.
+
 What is extracted (every item stops with ExtractFail when the source no longer has the shape the
 reader model relies on — the check treats that as a broken tie):
   * int32/int64LEB128MaxByteCount and, per decoder, the loop bound macro, the C type of `value`
@@ -18,6 +23,9 @@ reader model relies on — the check treats that as a broken tie):
 """
 import os
 import re
+
+import readernorm as rn
+from readernorm import vpat
 
 GEN_NAME = "Reader"
 
@@ -95,53 +103,73 @@ def _lean_str(s):
     return '"' + s.replace("\\", "\\\\").replace('"', '\\"') + '"'
 
 
+def _canon(src, fn, fname):
+    try:
+        return rn.canon(src, fn, fname)
+    except Exception as e:           # cfront.ExtractFail of the normaliser
+        raise ExtractFail(str(e) if str(e).startswith("EXTRACT-FAIL") else f"EXTRACT-FAIL {fname}: {fn}: {e}")
+
+
 def leb_info(repo):
-    src = _strip_comments(_read(repo, "leb128.h"))
+    raw = _read(repo, "leb128.h")
+    src = _strip_comments(raw)
     out = {}
     for nm in ("int32LEB128MaxByteCount", "int64LEB128MaxByteCount"):
         m = _need(re.search(r"#define\s+" + nm + r"\s+(\d+)", src), nm)
         out[nm] = int(m.group(1))
     decs = []
     for fn, res in (("leb128ReadU32", "U32"), ("leb128ReadI32", "I32"), ("leb128ReadU64", "U64"), ("leb128ReadI64", "I64")):
-        body = _func_body(src, fn, "leb128.h")
-        norm = re.sub(r"\s+", " ", body)
-        vt = _need(re.search(r"\b(U32|I32|U64|I64) value = 0;", norm), fn + " value decl").group(1)
-        st = _need(re.search(r"\b(U32|U64) shift = 0;", norm), fn + " shift decl").group(1)
-        lp = _need(re.search(r"while \(count < (\w+) && bufferReadByte\(buffer, &byte\)\) \{ count\+\+; "
-                             r"value \|= (.*?) << shift\)?; shift \+= (\d+); if \(\(byte & (0x[0-9A-Fa-f]+)\) == 0\) \{ break; \} \}", norm),
+        norm = _canon(raw, fn, "leb128.h")
+        pars = rn.param_names(raw, fn, "leb128.h")
+        if len(pars) != 2:
+            raise ExtractFail(f"EXTRACT-FAIL leb128.h: {fn} parameters")
+        buf, resp = pars
+        # the loop: while (count < MAX && bufferReadByte(buffer, &byte)) { count += 1; value |= PAYLOAD << shift; shift += STEP;
+        #                                                                 if (!(CONT & byte)) break; }
+        lp = _need(re.search(vpat(r"while \(\({count} < (?P<bound>\w+)\) && bufferReadByte\(" + buf + r", &{byte}\)\) \{ {count} \+= 1; "
+                                  r"{value} \|= (?P<payexpr>.*?); {shift} \+= (?P<step>\d+); if \(!\((?P<cont>\d+) & {byte}\)\) \{ break; \} \}"), norm),
                    fn + " loop shape")
-        bound = lp.group(1)
+        count, byte, value, shift = (lp.group(x) for x in ("count", "byte", "value", "shift"))
+        vt = _need(re.search(r"\b(U32|I32|U64|I64) " + value + r" = 0;", norm), fn + " value decl").group(1)
+        st = _need(re.search(r"\b(U32|U64) " + shift + r" = 0;", norm), fn + " shift decl").group(1)
+        _need(re.search(r"\bsize_t " + count + r" = 0;", norm), fn + " count decl")
+        bound = lp.group("bound")
         if bound not in out:
             raise ExtractFail(f"EXTRACT-FAIL leb128.h: {fn} loop bound {bound} unknown")
-        pay = _need(re.search(r"\(\((U32|U64)\) \(byte & (0x[0-9A-Fa-f]+)\)\)$", lp.group(2).replace("(" + vt + ") (", "", 1) if vt.startswith("I") else lp.group(2)),
-                    fn + " payload expression `" + lp.group(2) + "`")
-        width = 32 if "32" in vt else 64
-        if ("32" in pay.group(1)) != (width == 32) or st[1:] != vt[1:]:
-            raise ExtractFail(f"EXTRACT-FAIL leb128.h: {fn} widths of value/shift/payload cast differ")
         signed = vt.startswith("I")
+        ut = "U" + vt[1:]
+        pe = lp.group("payexpr")
+        if signed:
+            pay = re.fullmatch(r"\(" + vt + r"\) \(\((U32|U64)\) \((\d+) & " + byte + r"\) << " + shift + r"\)", pe)
+        else:
+            pay = re.fullmatch(r"\((U32|U64)\) \((\d+) & " + byte + r"\) << " + shift, pe)
+        pay = _need(pay, fn + " payload expression `" + pe + "`")
+        width = 32 if "32" in vt else 64
+        if ("32" in pay.group(1)) != (width == 32) or st[1:] != vt[1:] or vt != res:
+            raise ExtractFail(f"EXTRACT-FAIL leb128.h: {fn} widths of value/shift/payload cast differ")
         sign_mask = 0
         guard_bits = 0
         form = ""
+        tail = norm[lp.end():]
         if signed:
-            sg = _need(re.search(r"if \(\(shift < 8 \* sizeof\((I32|I64)\)\) && \(byte & (0x[0-9A-Fa-f]+)\)\) \{ value \|= (.*?); \}", norm),
+            sg = _need(re.match(r" if \(\((\d+) & " + byte + r"\) && \(" + shift + r" < 8 \* sizeof\((I32|I64)\)\)\) \{ " + value + r" \|= (.*?); \}", tail),
                        fn + " sign extension shape")
-            if sg.group(1) != vt:
+            if sg.group(2) != vt:
                 raise ExtractFail(f"EXTRACT-FAIL leb128.h: {fn} sign extension type")
             expr = sg.group(3)
-            ut = "U" + vt[1:]
-            if expr == f"-(({vt}) 1 << shift)":
+            if expr == f"-(({vt}) 1 << {shift})":
                 form = "negOneShifted"        # -((T)1 << shift): signed shift and negation
-            elif expr == f"({vt}) (~({ut}) 0 << shift)":
+            elif expr == f"({vt}) (~({ut}) 0 << {shift})":
                 form = "unsignedMask"         # (T)(~(UT)0 << shift): unsigned shift, implementation-defined conversion
             else:
                 raise ExtractFail(f"EXTRACT-FAIL leb128.h: {fn} sign extension expression `{expr}` not recognised")
-            sign_mask = _cint(sg.group(2))
+            sign_mask = int(sg.group(1))
             guard_bits = width
-        elif "value |= -" in norm:
-            raise ExtractFail(f"EXTRACT-FAIL leb128.h: {fn} unexpectedly sign-extends")
-        _need(re.search(r"\*result = value; return count; \}$", norm), fn + " epilogue")
-        decs.append(dict(name=fn, width=width, signed=signed, max=out[bound], step=int(lp.group(3)),
-                         payload=_cint(pay.group(2)), cont=_cint(lp.group(4)), sign=sign_mask, guard=guard_bits, form=form))
+            tail = tail[sg.end():]
+        if tail != f" *{resp} = {value}; return {count}; }}":
+            raise ExtractFail(f"EXTRACT-FAIL leb128.h: {fn} epilogue `{tail[:120]}`")
+        decs.append(dict(name=fn, width=width, signed=signed, max=out[bound], step=int(lp.group("step")),
+                         payload=int(pay.group(2)), cont=int(lp.group("cont")), sign=sign_mask, guard=guard_bits, form=form))
     out["decoders"] = decs
     return out
 
@@ -169,87 +197,211 @@ def reader_info(repo):
     out["importkinds"] = _enum(_strip_comments(_read(repo, "import.h")), "WasmImportKind", "import.h")
     out["exportkinds"] = _enum(_strip_comments(_read(repo, "export.h")), "WasmExportKind", "export.h")
     # value types
-    vt = _strip_comments(_read(repo, "valuetype.h"))
+    vt_raw = _read(repo, "valuetype.h")
+    vt = _strip_comments(vt_raw)
     out["valuetypes_enum"] = _enum(vt, "WasmValueType", "valuetype.h")
-    body = _func_body(vt, "wasmDecodeValueType", "valuetype.h")
-    codes = re.findall(r"case\s+(-?0x[0-9A-Fa-f]+|-?\d+)\s*:\s*\*result\s*=\s*(\w+)\s*;\s*return true;", body)
-    if len(codes) != 4:
+    body = _canon(vt_raw, "wasmDecodeValueType", "valuetype.h")
+    enc, res = rn.param_names(vt_raw, "wasmDecodeValueType", "valuetype.h")
+    sw = _need(re.fullmatch(r"\{ switch \(" + enc + r"\) \{ (.* )default: \{ return false; \} \} \}", body), "wasmDecodeValueType switch")
+    codes = re.findall(r"case (-?\d+): \{ \*" + res + r" = (\w+); return true; \} ", sw.group(1))
+    if len(codes) != 4 or "".join(f"case {c}: {{ *{res} = {n}; return true; }} " for c, n in codes) != sw.group(1):
         raise ExtractFail("EXTRACT-FAIL valuetype.h: wasmDecodeValueType cases")
-    out["valuetypes"] = [(_cint(c), n) for c, n in codes]
-    body = _func_body(vt, "wasmReadBlockType", "valuetype.h")
-    out["emptyblock"] = _cint(_need(re.search(r"encodedValueType\s*==\s*(-?\d+)", body), "empty block type").group(1))
-    for fn in ("wasmReadValueType", "wasmReadBlockType"):
-        _need(re.search(r"MUST\s*\(leb128ReadI32\(buffer, &encodedValueType\)\)", _func_body(vt, fn, "valuetype.h")), fn + " reads an I32 LEB")
+    order = {n: i for i, (n, _) in enumerate(out["valuetypes_enum"])}
+    if any(n not in order for _, n in codes):
+        raise ExtractFail("EXTRACT-FAIL valuetype.h: wasmDecodeValueType returns an unknown enumerator")
+    out["valuetypes"] = sorted(((int(c), n) for c, n in codes), key=lambda cn: order[cn[1]])
+    body = _canon(vt_raw, "wasmReadBlockType", "valuetype.h")
+    bbuf, bres = rn.param_names(vt_raw, "wasmReadBlockType", "valuetype.h")
+    mm = _need(re.fullmatch(vpat(r"\{ I32 {v} = 0; MUST \(leb128ReadI32\(" + bbuf + r", &{v}\)\) if \((?P<code>-?\d+) == {v}\) \{ \*" + bres +
+                                 r" = NULL; return true; \} return wasmDecodeValueType\({v}, \*" + bres + r"\); \}"), body),
+               "wasmReadBlockType shape")
+    out["emptyblock"] = int(mm.group("code"))
+    body = _canon(vt_raw, "wasmReadValueType", "valuetype.h")
+    vbuf, vres = rn.param_names(vt_raw, "wasmReadValueType", "valuetype.h")
+    _need(re.fullmatch(vpat(r"\{ I32 {v} = 0; MUST \(leb128ReadI32\(" + vbuf + r", &{v}\)\) return wasmDecodeValueType\({v}, " + vres + r"\); \}"), body),
+          "wasmReadValueType reads an I32 LEB")
     # limits
-    body = re.sub(r"\s+", " ", _func_body(rd, "wasmReadLimits", "reader.c"))
+    body = _canon(rd_raw, "wasmReadLimits", "reader.c")
+    lp = rn.param_names(rd_raw, "wasmReadLimits", "reader.c")
+    if len(lp) != 6:
+        raise ExtractFail("EXTRACT-FAIL reader.c: wasmReadLimits parameters")
+    lrd, lmin, lmax, lhas, lsh, lerr = lp
+    sw = _need(re.search(vpat(r"bufferReadByte\(&" + lrd + r"->buffer, &{k}\).*? switch \({k}\) \{ (?P<groups>.*?) default: \{ static WasmModuleReaderError "
+                              r"\w+ = \{wasmModuleReaderInvalidLimitKind\}; \*" + lerr + r" = &\w+; return; \} \} \*" + lerr + r" = NULL; \}$"), body),
+               "wasmReadLimits switch on the kind byte")
     kinds = []
-    for mm in re.finditer(r"case (0x[0-9A-Fa-f]+): \{(.*?)break; \}", body):
+    consumed = ""
+    for mm in re.finditer(r"case (\d+): \{ (.*?)break; \} ", sw.group("groups") + " "):
         blk = mm.group(2)
-        has_max = "leb128ReadU32(&reader->buffer, max)" in blk
-        if not has_max and "*max = 0;" not in blk:
-            raise ExtractFail("EXTRACT-FAIL reader.c: wasmReadLimits case without max")
-        sh = _need(re.search(r"\*shared = (true|false);", blk), "limits shared").group(1) == "true"
-        kinds.append((_cint(mm.group(1)), has_max, sh))
-    if not kinds:
+        consumed += mm.group(0)
+        rd_max = re.fullmatch(r"if \(!leb128ReadU32\(&" + lrd + r"->buffer, " + lmax + r"\)\) \{ static WasmModuleReaderError \w+ = \{wasmModuleReaderInvalidLimitMaximum\}; \*"
+                              + lerr + r" = &\w+; return; \} \*" + lhas + r" = true; \*" + lsh + r" = (true|false); ", blk)
+        no_max = re.fullmatch(r"\*" + lmax + r" = 0; \*" + lhas + r" = false; \*" + lsh + r" = (true|false); ", blk)
+        if rd_max:
+            kinds.append((int(mm.group(1)), True, rd_max.group(1) == "true"))
+        elif no_max:
+            kinds.append((int(mm.group(1)), False, no_max.group(1) == "true"))
+        else:
+            raise ExtractFail("EXTRACT-FAIL reader.c: wasmReadLimits case body not recognised: " + blk[:160])
+    if not kinds or consumed != sw.group("groups") + " ":
         raise ExtractFail("EXTRACT-FAIL reader.c: wasmReadLimits switch")
     out["limitkinds"] = kinds
-    body = re.sub(r"\s+", " ", _func_body(rd, "wasmReadMemoryType", "reader.c"))
+    body = _canon(rd_raw, "wasmReadMemoryType", "reader.c")
+    mp = rn.param_names(rd_raw, "wasmReadMemoryType", "reader.c")
     page = _cint(_need(re.search(r"#define\s+WASM_PAGE_SIZE\s+(\d+)", _read(repo, "w2c2_base.h")), "WASM_PAGE_SIZE").group(1))
     out["memdefault"] = 0xFFFFFFFF // page
-    if re.search(r"if \(\*max == 0\) \{ \*max = UINT32_MAX / WASM_PAGE_SIZE; \}", body):
+    call = _need(re.search(vpat(r"wasmReadLimits\(" + mp[0] + r", {min}, {max}, &{h}, {shared}, " + mp[-1] + r"\);"), body), "wasmReadMemoryType calls wasmReadLimits")
+    mx, hs = call.group("max"), call.group("h")
+    _need(re.search(r"\bbool " + hs + r" = false;", body), "wasmReadMemoryType hasMax local")
+    dflt = r" \{ \*" + mx + r" = UINT32_MAX / WASM_PAGE_SIZE; \}"
+    if re.search(r"if \(!\*" + mx + r"\)" + dflt, body):
         out["memrule"] = "maxIsZero"
-    elif re.search(r"if \(!hasMax \|\| \*max > UINT32_MAX / WASM_PAGE_SIZE\) \{ \*max = UINT32_MAX / WASM_PAGE_SIZE; \}", body):
+    elif re.search(r"if \(!" + hs + r" \|\| \(UINT32_MAX / WASM_PAGE_SIZE < \*" + mx + r"\)\)" + dflt, body):
         out["memrule"] = "noMaxOrTooLarge"
     else:
         raise ExtractFail("EXTRACT-FAIL reader.c: wasmReadMemoryType default-maximum rule not recognised")
-    body = re.sub(r"\s+", " ", _func_body(rd, "wasmReadTableType", "reader.c"))
+    body = _canon(rd_raw, "wasmReadTableType", "reader.c")
+    tp = rn.param_names(rd_raw, "wasmReadTableType", "reader.c")
+    call = _need(re.search(vpat(r"wasmReadLimits\(" + tp[0] + r", {min}, {max}, &{h}, {shared}, " + tp[-1] + r"\);"), body), "wasmReadTableType calls wasmReadLimits")
+    mx, hs = call.group("max"), call.group("h")
     out["tabledefault"] = 0xFFFFFFFF
-    if re.search(r"if \(\*max == 0\) \{ \*max = UINT32_MAX; \}", body):
+    if re.search(r"if \(!\*" + mx + r"\) \{ \*" + mx + r" = UINT32_MAX; \}", body):
         out["tablerule"] = "maxIsZero"
-    elif re.search(r"if \(!hasMax\) \{ \*max = UINT32_MAX; \}", body):
+    elif re.search(r"if \(!" + hs + r"\) \{ \*" + mx + r" = UINT32_MAX; \}", body):
         out["tablerule"] = "noMax"
     else:
         raise ExtractFail("EXTRACT-FAIL reader.c: wasmReadTableType default-maximum rule not recognised")
     # name section: are NULL names guarded in the comparator and in the duplicate scan?
-    cmpb = re.sub(r"\s+", " ", _func_body(rd, "wasmFunctionNameEntryCompareNames", "reader.c"))
-    dupb = re.sub(r"\s+", " ", _func_body(rd, "wasmFunctionNamesRemoveDuplicates", "reader.c"))
-    g1 = bool(re.search(r"if \(entryA->name == NULL \|\| entryB->name == NULL\) \{ return \(entryA->name != NULL\) - \(entryB->name != NULL\); \}", cmpb))
-    g2 = bool(re.search(r"if \(previous\.name == NULL \|\| current\.name == NULL\) \{ continue; \}", dupb))
-    if "strcmp(entryA->name, entryB->name)" not in cmpb or "strcmp(previous.name, current.name) == 0" not in dupb:
+    cmpb = _canon(rd_raw, "wasmFunctionNameEntryCompareNames", "reader.c")
+    dupb = _canon(rd_raw, "wasmFunctionNamesRemoveDuplicates", "reader.c")
+    LV = r"[\w\[\]\-+ .>]+?"        # an lvalue such as `entries[i - 1]` or `entryA`
+    cm = _need(re.search(r"return strcmp\((" + LV + r")(->|\.)name, (" + LV + r")(?:->|\.)name\); \}$", cmpb), "name comparator strcmp")
+    a, arrow, b = re.escape(cm.group(1)), re.escape(cm.group(2)), re.escape(cm.group(3))
+    g1 = False
+    for x, y in ((a, b), (b, a)):
+        if re.search(r"if \(!" + x + arrow + r"name \|\| !" + y + arrow + r"name\) \{ return \(NULL != " + a + arrow + r"name\) - \(NULL != "
+                     + b + arrow + r"name\); \}", cmpb):
+            g1 = True
+    dm = re.search(r"if \(!strcmp\((" + LV + r")\.name, (" + LV + r")\.name\)\) \{", dupb)
+    if dm is None:
         raise ExtractFail("EXTRACT-FAIL reader.c: name de-duplication shape not recognised")
+    a, b = re.escape(dm.group(1)), re.escape(dm.group(2))
+    g2 = any(re.search(r"if \(!" + x + r"\.name \|\| !" + y + r"\.name\) \{ continue; \}", dupb) for x, y in ((a, b), (b, a)))
     out["namesnullguard"] = g1 and g2
     # data segment kinds
-    body = re.sub(r"\s+", " ", _func_body(rd, "wasmReadDataSegment", "reader.c"))
-    dk = []
-    for mm in re.finditer(r"case (0x[0-9A-Fa-f]+): \{? ?readMemoryIndex = (true|false); readOffsetExpression = (true|false); passive = (true|false); break;", body):
-        dk.append((_cint(mm.group(1)), mm.group(2) == "true", mm.group(3) == "true", mm.group(4) == "true"))
-    if len(dk) < 1:
+    body = _canon(rd_raw, "wasmReadDataSegment", "reader.c")
+    dp = rn.param_names(rd_raw, "wasmReadDataSegment", "reader.c")
+    drd, dres, derr = dp
+    use = _need(re.search(vpat(r"leb128ReadU32\(&" + drd + r"->buffer, &{kind}\).*? switch \({kind}\) \{ (?P<groups>.*?) default: \{ static WasmModuleReaderError \w+ = "
+                               r"\{wasmModuleReaderInvalidDataSectionKind\}; \*" + derr + r" = &\w+; return; \} \} "
+                               r"if \({rmi}\) \{ if \(!leb128ReadU32\(&" + drd + r"->buffer, &{mi}\)\) .*? "
+                               r"if \({roe}\) \{ {off} = " + drd + r"->buffer; if \(!wasmReadConstantExpr\(&" + drd + r"->buffer\)\) .*? "
+                               + dres + r"->passive = {passive}; \}$"), body), "wasmReadDataSegment shape")
+    rmi, roe, pas = use.group("rmi"), use.group("roe"), use.group("passive")
+    dk = {}
+    consumed = ""
+    for mm in re.finditer(r"case (\d+): \{ ((?:\w+ = (?:true|false); ){3})break; \} ", use.group("groups") + " "):
+        consumed += mm.group(0)
+        asg = dict(re.findall(r"(\w+) = (true|false); ", mm.group(2)))
+        if set(asg) != {rmi, roe, pas}:
+            raise ExtractFail("EXTRACT-FAIL reader.c: wasmReadDataSegment case does not set the three flags")
+        dk[int(mm.group(1))] = (asg[rmi] == "true", asg[roe] == "true", asg[pas] == "true")
+    if not dk or consumed != use.group("groups") + " ":
         raise ExtractFail("EXTRACT-FAIL reader.c: wasmReadDataSegment kind table")
-    out["datakinds"] = dk
+    out["datakinds"] = [(k,) + dk[k] for k in sorted(dk)]
     # constant expressions: which opcodes wasmReadConstantExpr accepts, with their byte values
-    body = re.sub(r"\s+", " ", _func_body(rd, "wasmReadConstantExpr", "reader.c"))
-    mm = _need(re.search(r"switch \(opcode\) \{ ((?:case \w+: )+)\{ WasmConstInstruction instruction; MUST \(wasmConstInstructionRead\(buffer, opcode, &instruction\)\) break; \} "
-                         r"case (\w+): \{ WasmGlobalInstruction instruction; MUST \(wasmGlobalInstructionRead\(buffer, &instruction\)\) break; \} "
-                         r"case (\w+): return true; default: return false; \} MUST \(wasmOpcodeRead\(buffer, &opcode\)\) MUST \(opcode == (\w+)\) return true;", body),
+    body = _canon(rd_raw, "wasmReadConstantExpr", "reader.c")
+    cbuf, = rn.param_names(rd_raw, "wasmReadConstantExpr", "reader.c")
+    mm = _need(re.fullmatch(vpat(r"\{ WasmOpcode {op}; MUST \(wasmOpcodeRead\(" + cbuf + r", &{op}\)\) switch \({op}\) \{ (?P<groups>.*?) default: \{ return false; \} \} "
+                                 r"MUST \(wasmOpcodeRead\(" + cbuf + r", &{op}\)\) MUST \({op} == (?P<end>\w+)\) return true; \}"), body),
                "wasmReadConstantExpr shape")
-    consts = re.findall(r"case (\w+):", mm.group(1))
-    if mm.group(3) != mm.group(4):
+    opv = mm.group("op")
+    consts, gget, endop = None, None, None
+    consumed = ""
+    for g in re.finditer(r"((?:case \w+: )+)\{ (.*?) \} (?=case |$)", mm.group("groups") + " "):
+        consumed += g.group(0)
+        labels = re.findall(r"case (\w+):", g.group(1))
+        blk = g.group(2)
+        if blk == "return true;" and len(labels) == 1:
+            endop = labels[0]
+        elif re.fullmatch(r"WasmConstInstruction (\w+); MUST \(wasmConstInstructionRead\(" + cbuf + ", " + opv + r", &\1\)\) break;", blk):
+            consts = labels
+        elif re.fullmatch(r"WasmGlobalInstruction (\w+); MUST \(wasmGlobalInstructionRead\(" + cbuf + r", &\1\)\) break;", blk) and len(labels) == 1:
+            gget = labels[0]
+        else:
+            raise ExtractFail("EXTRACT-FAIL reader.c: wasmReadConstantExpr group not recognised: " + blk[:120])
+    if consts is None or gget is None or endop is None or consumed != mm.group("groups") + " ":
+        raise ExtractFail("EXTRACT-FAIL reader.c: wasmReadConstantExpr groups")
+    if endop != mm.group("end"):
         raise ExtractFail("EXTRACT-FAIL reader.c: wasmReadConstantExpr end opcode")
     oph = _strip_comments(_read(repo, "opcode.h"))
     def opval(n):
         return _cint(_need(re.search(r"\b" + n + r"\s*=\s*(0x[0-9A-Fa-f]+)", oph), "opcode " + n).group(1))
-    ins = re.sub(r"\s+", " ", _func_body(_strip_comments(_read(repo, "instruction.c")), "wasmConstInstructionRead", "instruction.c"))
+    ins_raw = _read(repo, "instruction.c")
+    ins = _canon(ins_raw, "wasmConstInstructionRead", "instruction.c")
+    ib, iop, ires = rn.param_names(ins_raw, "wasmConstInstructionRead", "instruction.c")
     kinds = {}
-    for c, fn in re.findall(r"case (\w+): return (\w+)\(buffer, &result->value\.\w+\) > 0;", ins):
+    for c, fn in re.findall(r"case (\w+): \{ return 0 < (\w+)\(" + ib + r", &" + ires + r"->value\.\w+\); \}", ins):
         kinds[c] = fn
     ce = []
     for c in consts:
         if c not in kinds:
             raise ExtractFail(f"EXTRACT-FAIL instruction.c: wasmConstInstructionRead has no case {c}")
         ce.append((c, opval(c), kinds[c]))
-    out["constexpr"] = ce
-    out["globalget"] = (mm.group(2), opval(mm.group(2)))
-    out["endop"] = (mm.group(3), opval(mm.group(3)))
+    out["constexpr"] = sorted(ce, key=lambda r: r[1])
+    out["globalget"] = (gget, opval(gget))
+    out["endop"] = (endop, opval(endop))
+    # name section: what happens to a function index outside the function index space known so far, and whether the part
+    # of the name table added by growing it is zeroed
+    body = _canon(rd_raw, "wasmReadNameSection", "reader.c")
+    np_ = rn.param_names(rd_raw, "wasmReadNameSection", "reader.c")
+    R, nerr = re.escape(np_[0]), re.escape(np_[-1])
+    ERR = lambda code: r"\{ static WasmModuleReaderError \w+ = \{" + code + r"\}; \*" + nerr + r" = &\w+; return; \}"
+    tbl = R + r"->module->functionNames"
+    ens = _need(re.search(vpat(r"if \(!wasmNamesEnsureCapacity\(&" + tbl + r", {fc}\)\) " + ERR("wasmModuleReaderAllocationFailed") + r" (?P<between>.*?)"
+                               + tbl + r"\.length = {fc}; "), body), "wasmReadNameSection: reserve / length store of the name table")
+    fc = ens.group("fc")
+    zero = (r"if \(" + tbl + r"\.length < " + fc + r"\) \{ memset\(" + tbl + r"\.length \+ " + tbl + r"\.names, 0, \(" + fc + r" - " + tbl
+            + r"\.length\) \* sizeof\(char\*\)\); \} ")
+    if ens.group("between") == "":
+        out["namegrowzeroed"] = False
+    elif re.fullmatch(zero, ens.group("between")):
+        out["namegrowzeroed"] = True
+    else:
+        raise ExtractFail("EXTRACT-FAIL reader.c: wasmReadNameSection: code between wasmNamesEnsureCapacity and the length store not recognised: "
+                          + ens.group("between")[:200])
+    rd_idx = r"if \(!leb128ReadU32\(&" + R + r"->buffer, &{fi}\)\) " + ERR("wasmModuleReaderInvalidNameSectionFunctionIndex") + " "
+    rd_nm = r"if \(!wasmReadName\(&" + R + r"->buffer, &{fn}\)\) " + ERR("wasmModuleReaderInvalidNameSectionFunctionName") + " "
+    store = tbl + r"\.names\[{fi}\] = {fn};"
+    tail = body[ens.end():]
+    if re.search(vpat(rd_idx + rd_nm + r"if \(" + fc + r" <= {fi}\) \{ free\({fn}\); continue; \} " + store), tail):
+        out["nameindexrange"] = "skip-after-name"
+    elif re.search(vpat(rd_idx + r"if \(" + fc + r" <= {fi}\) " + ERR("wasmModuleReaderInvalidNameSectionFunctionIndex") + " " + rd_nm + store), tail):
+        out["nameindexrange"] = "error-before-name"
+    else:
+        raise ExtractFail("EXTRACT-FAIL reader.c: wasmReadNameSection: handling of a function index >= functionCount not recognised")
+    # custom sections: how the two special names are recognised
+    body = _canon(rd_raw, "wasmReadCustomSection", "reader.c")
+    cp = rn.param_names(rd_raw, "wasmReadCustomSection", "reader.c")
+    nm = _need(re.search(vpat(r"wasmReadName\(&" + cp[0] + r"->buffer, &{name}\)"), body), "wasmReadCustomSection reads the name").group("name")
+    def match_kind(const):
+        if ("!strcmp(%s, %s)" % (nm, const)) in body or ("strcmp(%s, %s)" % (nm, const)) in body:
+            if ("strncmp(%s, %s" % (nm, const)) in body:
+                raise ExtractFail("EXTRACT-FAIL reader.c: wasmReadCustomSection compares with %s twice" % const)
+            return "exact"
+        if ("strncmp(%s, %s, strlen(%s))" % (nm, const, const)) in body:
+            return "prefix"
+        raise ExtractFail("EXTRACT-FAIL reader.c: wasmReadCustomSection: comparison with %s not recognised" % const)
+    out["debugmatch"] = match_kind("wasmDebugSectionNamePrefix")
+    out["namematch"] = match_kind("wasmNameSectionName")
+    dbg = r"strncmp\(%s, wasmDebugSectionNamePrefix, strlen\(wasmDebugSectionNamePrefix\)\)" % nm
+    nmt = r"!str(?:cmp\(%s, wasmNameSectionName\)|ncmp\(%s, wasmNameSectionName, strlen\(wasmNameSectionName\)\))" % (nm, nm)
+    # the dispatch: debug prefix first, then (reader->debug && name section), else skip
+    if not re.search(r"if \(" + dbg + r"\) \{ if \(" + cp[0] + r"->debug && " + nmt + r"\) \{ wasmReadNameSection\(" + cp[0] + r", \w+, \w+\); .*? \} else \{ .*?bufferSkip\(&"
+                     + cp[0] + r"->buffer, \w+\); .*?\} \} else \{ .*?wasmDebugSectionsAppend\(.*?bufferSkip\(&" + cp[0] + r"->buffer, \w+\); \}", body):
+        raise ExtractFail("EXTRACT-FAIL reader.c: wasmReadCustomSection dispatch shape not recognised")
+    if out["debugmatch"] != "prefix":
+        raise ExtractFail("EXTRACT-FAIL reader.c: .debug_ sections are not recognised by prefix any more (the model knows no other rule)")
     return out
 
 
@@ -325,6 +477,9 @@ def generate(repo):
     A(f"def tableTypeFuncRef : Nat := {rd['funcref']}")
     A(f"def debugSectionNamePrefix : String := {_lean_str(rd['debugprefix'])}")
     A(f"def nameSectionName : String := {_lean_str(rd['namesection'])}")
+    A("/-- wasmReadCustomSection: how the name is compared with the constant: `exact` = strcmp(...) == 0, `prefix` = strncmp(..., strlen(constant)) == 0 -/")
+    A(f"def nameSectionMatch : String := {_lean_str(rd['namematch'])}")
+    A(f"def debugSectionMatch : String := {_lean_str(rd['debugmatch'])}")
     A("/-- `enum WasmValueType` order -/")
     A("def valueTypeEnum : List (String × Nat) := [" + ", ".join(f"({_lean_str(n)}, {v})" for n, v in rd["valuetypes_enum"]) + "]")
     A("/-- `wasmDecodeValueType`: (signed LEB code, enum constant) -/")
@@ -339,6 +494,11 @@ def generate(repo):
     A(f"def tableMaxRule : String := {_lean_str(rd['tablerule'])}")
     A("/-- wasmFunctionNameEntryCompareNames / wasmFunctionNamesRemoveDuplicates skip NULL names -/")
     A(f"def functionNamesNullGuard : Bool := {str(rd['namesnullguard']).lower()}")
+    A("/-- wasmReadNameSection, a function index >= the number of functions known at that point: `error-before-name` = rejected with")
+    A("    InvalidNameSectionFunctionIndex before the name is read; `skip-after-name` = the name is read, freed and ignored -/")
+    A(f"def nameIndexOutOfRange : String := {_lean_str(rd['nameindexrange'])}")
+    A("/-- wasmReadNameSection zeroes the entries added when the name table grows (`memset(names + length, 0, …)` before the length store) -/")
+    A(f"def nameTableGrowthZeroed : Bool := {str(rd['namegrowzeroed']).lower()}")
     A("/-- `wasmReadDataSegment`: (kind, readMemoryIndex, readOffsetExpression, passive) -/")
     A("def dataKinds : List (Nat × Bool × Bool × Bool) := [" + ", ".join(
         f"({k}, {str(a).lower()}, {str(b).lower()}, {str(c).lower()})" for k, a, b, c in rd["datakinds"]) + "]")
